@@ -15,16 +15,17 @@ HREW = "hermes::SourceMapHermes::rewrite"
 LAM = "\u03bb"
 
 
-def named(body, pred):
-    """{local: name} for named locals with a def shape accepted by pred(shape)."""
+def named(body, pred, any_def=False):
+    """Named locals *all* of whose definitions have a shape accepted by pred(shape): a role is only given to a
+    variable that cannot hold anything else (a second definition from a fast path or a fallback would otherwise
+    hide behind the role name). any_def=True: one accepted definition is enough."""
     out = []
     for l in sorted(body.var_names):
         if body.var_names[l] in ("val", "residual"):
             continue  # artefacts of the `?` desugaring
-        for sh, site, e in q.def_shapes(body, l, {}):
-            if pred(sh):
-                out.append(l)
-                break
+        shs = [sh for sh, site, e in q.def_shapes(body, l, {})]
+        if shs and (any(pred(sh) for sh in shs) if any_def else all(pred(sh) for sh in shs)):
+            out.append(l)
     return out
 
 
@@ -222,7 +223,10 @@ def strip_prefixes(ctx, rule):
     inner = [bi for bi, t in q.calls_to(b, "Iterator::next") if "Iter<S>" in q.shape(q.arg_expr(b, t, 0))]
     outer = [bi for bi, t in q.calls_to(b, "Iterator::next") if "IterMut" in q.shape(q.arg_expr(b, t, 0))]
     ok = bool(sl) and bool(inner) and bool(outer) and not b.reaches(sl[0][0], inner[0], avoid=[outer[0]])
-    ctx.check(ok, rule, fn, "break", "at most one prefix is stripped from a source (break after the first hit)")
+    # ... with the prefixes tried per source (sources outside, prefixes inside): the other nesting would test a source
+    # that was already shortened against the later prefixes
+    ok = ok and b.dominates(outer[0], inner[0]) and b.reaches(inner[0], outer[0]) and not b.dominates(inner[0], outer[0])
+    ctx.check(ok, rule, fn, "break", "at most one prefix is stripped from a source (prefixes are tried per source, break after the first hit)")
 
 
 def hermes_permutation(ctx, rule):
